@@ -108,7 +108,10 @@ func (c *tapConn) Read(p []byte) (int, error) {
 		case "data":
 			data, cut := c.body(c.dataKind)
 			c.pending = data
-			if cut {
+			if cut && len(data) == 0 { // connection lost before the first byte of the message
+				c.eof = true
+				return 0, io.EOF
+			} else if cut {
 				c.mode = "cutEOF"
 			} else {
 				c.mode = "cmd"
